@@ -238,6 +238,22 @@ func (p *Prog) computeAutoMods() {
 			}
 		}
 	}
+	// ghost assignments in contracts write ghost field maps
+	for fn, fc := range p.contracts {
+		ms := p.autoMods[fn]
+		if ms == nil {
+			continue
+		}
+		for _, g := range fc.Ghosts {
+			if sel, ok := g.LHS.(*ESel); ok {
+				for k := range p.ghosts {
+					if strings.HasSuffix(k, "."+sel.Name) {
+						ms.add("G$" + k[:strings.LastIndex(k, ".")] + "$" + sel.Name)
+					}
+				}
+			}
+		}
+	}
 	// propagate along call edges
 	changed := true
 	for changed {
@@ -291,10 +307,54 @@ func (p *Prog) callees(fn *ssa.Function) []*ssa.Function {
 			}
 			if c.IsInvoke() {
 				out = append(out, p.chaTargets(c)...)
+			} else {
+				// call of a function value: any repository function/closure of that signature whose value is taken
+				out = append(out, p.funcValueTargets(c.Signature())...)
 			}
 		}
 	}
 	return out
+}
+
+// funcValueTargets: closed-world resolution of calls through function values: every repository function
+// that is used as a value (closure creation or function reference) and has an identical signature.
+func (p *Prog) funcValueTargets(sig *types.Signature) []*ssa.Function {
+	if p.fvTargets == nil {
+		p.fvTargets = map[string][]*ssa.Function{}
+		seen := map[*ssa.Function]bool{}
+		addF := func(f *ssa.Function) {
+			if f == nil || seen[f] || !strings.HasPrefix(fnPkgPath(f), repoPrefix) {
+				return
+			}
+			seen[f] = true
+			k := sigKey(f.Signature)
+			p.fvTargets[k] = append(p.fvTargets[k], f)
+		}
+		for _, fn := range p.allFuncs {
+			for _, b := range fn.Blocks {
+				for _, in := range b.Instrs {
+					if mc, ok := in.(*ssa.MakeClosure); ok {
+						addF(mc.Fn.(*ssa.Function))
+					}
+					for _, op := range in.Operands(nil) {
+						if f, ok := (*op).(*ssa.Function); ok {
+							// a function used as an operand other than the callee position
+							if ci, isCall := in.(ssa.CallInstruction); isCall && ci.Common().Value == f {
+								continue
+							}
+							addF(f)
+						}
+					}
+				}
+			}
+		}
+	}
+	return p.fvTargets[sigKey(sig)]
+}
+
+func sigKey(sig *types.Signature) string {
+	// receiver-less signature string
+	return types.TypeString(types.NewSignatureType(nil, nil, nil, sig.Params(), sig.Results(), sig.Variadic()), nil)
 }
 
 var chaCache = map[string][]*ssa.Function{}
@@ -370,12 +430,7 @@ func (p *Prog) directCallEffects(srt *sorter, fn *ssa.Function, in ssa.CallInstr
 			}
 			return
 		}
-		// dynamic closure call
-		if _, isParam := c.Value.(*ssa.Parameter); isParam || true {
-			// effects of closures are attributed to their creators (see callees); a call of an unknown func value
-			// may run any closure whose creator is on the stack or any function value stored earlier: mark Top.
-			ms.Top, ms.Why = true, "call of function value in "+relKey(fn)
-		}
+		// call of a function value: resolved closed-world in callees() (funcValueTargets)
 		return
 	}
 	if fnPkgPath(sc) != "" && strings.HasPrefix(fnPkgPath(sc), repoPrefix) {
